@@ -7,15 +7,25 @@
 (*      the task was woken by its periodic timeout, not by the readiness event  *)
 (*      cross_wake: a task waiting on a descriptor for which nothing has        *)
 (*      arrived was woken by a readiness event                                  *)
+(*      wrong_token: ground truth read from the kernel (epoll `data` in         *)
+(*      /proc/self/fdinfo) just before a descriptor is made ready: exactly one  *)
+(*      task waits on it, it was the last to start waiting there and has sat    *)
+(*      through at least one whole wait slice since (so it has registered       *)
+(*      again after anybody else), yet the registration is missing or carries   *)
+(*      another coroutine's token  (Selector!TokenOfWaiter)                     *)
 EXTENDS Naturals, Integers, Sequences, FiniteSets, TLC, Json, IOUtils
 
 Rec == ndJsonDeserialize(IOEnv.TRACE)
 N == Len(Rec)
 
-VARIABLES l, scen, nloops, want, waitsOn, readyFd, sawCb, sawTo, nviol
-vars == <<l, scen, nloops, want, waitsOn, readyFd, sawCb, sawTo, nviol>>
+VARIABLES l, scen, nloops, want, waitsOn, readyFd, sawCb, sawTo, nviol,
+          slices,      \* [task -> timeout wake-ups since it last started to wait]
+          lastParker,  \* [fd -> task that started to wait on it last]
+          parkLoop     \* [task -> event loop on which it started to wait]
+vars == <<l, scen, nloops, want, waitsOn, readyFd, sawCb, sawTo, nviol, slices, lastParker, parkLoop>>
 Init == /\ l = 1 /\ scen = 0 /\ nloops = 0 /\ want = <<>> /\ waitsOn = [t \in {} |-> 0] /\ readyFd = {}
         /\ sawCb = [t \in {} |-> 0] /\ sawTo = [t \in {} |-> 0] /\ nviol = 0
+        /\ slices = [t \in {} |-> 0] /\ lastParker = [f \in {} |-> 0] /\ parkLoop = [t \in {} |-> 0]
 Viol(clause, detail) == PrintT(<<"VIOL", l, clause, scen, detail>>)
 Count(b) == IF b THEN 1 ELSE 0
 Put(f, k, v) == [x \in DOMAIN f \cup {k} |-> IF x = k THEN v ELSE f[x]]
@@ -34,27 +44,34 @@ Step ==
   /\ l <= N /\ l' = l + 1
   /\ LET r == Rec[l] ev == r.ev IN
      CASE ev = "lreset" ->
-            /\ scen' = r.scenario /\ nloops' = r.loops /\ want' = [x \in 1..r.loops |-> [f \in 1..2 |-> {}]]
+            /\ scen' = r.scenario /\ nloops' = r.loops /\ want' = [x \in 1..r.loops |-> [f \in 1..3 |-> {}]]
             /\ waitsOn' = [t \in {} |-> 0] /\ readyFd' = {} /\ sawCb' = [t \in {} |-> 0] /\ sawTo' = [t \in {} |-> 0]
+            /\ slices' = [t \in {} |-> 0] /\ lastParker' = [f \in {} |-> 0] /\ parkLoop' = [t \in {} |-> 0]
             /\ UNCHANGED nviol
-       [] ev \in {"epolls", "agent", "op_done", "lend"} -> UNCHANGED <<scen, nloops, want, waitsOn, readyFd, sawCb, sawTo, nviol>>
+       [] ev \in {"epolls", "agent", "op_done", "lend"} -> UNCHANGED <<scen, nloops, want, waitsOn, readyFd, sawCb, sawTo, nviol, slices, lastParker, parkLoop>>
        [] ev = "op" ->
             /\ want' = CASE r.op = "wait" -> [want EXCEPT ![r.loop][r.fd] = @ \cup {r.kind}]
                          [] r.op = "del" -> [want EXCEPT ![r.loop][r.fd] = @ \ KS(r.kinds)]
                          [] OTHER -> [x \in DOMAIN want |-> [want[x] EXCEPT ![r.fd] = {}]]
-            /\ UNCHANGED <<scen, nloops, waitsOn, readyFd, sawCb, sawTo, nviol>>
+            /\ UNCHANGED <<scen, nloops, waitsOn, readyFd, sawCb, sawTo, nviol, slices, lastParker, parkLoop>>
        [] ev = "snap" ->
             LET bad == BadRegs(r.regs, 1) IN
             /\ (bad # {} => Viol("interest_mismatch", bad))
             /\ nviol' = nviol + Count(bad # {})
-            /\ UNCHANGED <<scen, nloops, want, waitsOn, readyFd, sawCb, sawTo>>
+            /\ UNCHANGED <<scen, nloops, want, waitsOn, readyFd, sawCb, sawTo, slices, lastParker, parkLoop>>
        [] ev = "park_b" ->
             /\ waitsOn' = Put(waitsOn, r.task, r.fd)
+            /\ slices' = Put(slices, r.task, 0) /\ lastParker' = Put(lastParker, r.fd, r.task) /\ parkLoop' = Put(parkLoop, r.task, r.loop)
             /\ UNCHANGED <<scen, nloops, want, readyFd, sawCb, sawTo, nviol>>
        [] ev = "write" ->
             \* from now on a wake-up of a task waiting on this descriptor must be the readiness event
-            /\ readyFd' = readyFd \cup {r.fd}
-            /\ UNCHANGED <<scen, nloops, want, waitsOn, sawCb, sawTo, nviol>>
+            LET P == {t \in DOMAIN waitsOn : waitsOn[t] = r.fd}
+                bad == \E t \in P : /\ P = {t} /\ Get(lastParker, r.fd) = t /\ Get(slices, t) >= 1
+                                     /\ ~\E i \in DOMAIN r.toks : r.toks[i].loop = Get(parkLoop, t) /\ r.toks[i].task = t
+            IN /\ readyFd' = readyFd \cup {r.fd}
+               /\ (bad => Viol("wrong_token", <<r.fd, P, r.toks>>))
+               /\ nviol' = nviol + Count(bad)
+               /\ UNCHANGED <<scen, nloops, want, waitsOn, sawCb, sawTo, slices, lastParker, parkLoop>>
        [] ev = "wake" ->
             LET t == r.task f == Get(waitsOn, t)
                 bad == r.how = "callback" /\ f # 0 /\ f \notin readyFd
@@ -63,11 +80,12 @@ Step ==
                \* sawCb / sawTo are per-task counters of wake-ups that happened while data was there
                /\ sawCb' = IF r.how = "callback" THEN Put(sawCb, t, Get(sawCb, t) + 1) ELSE sawCb
                /\ sawTo' = IF r.how = "timeout" /\ f \in readyFd THEN Put(sawTo, t, Get(sawTo, t) + 1) ELSE sawTo
-               /\ UNCHANGED <<scen, nloops, want, waitsOn, readyFd>>
+               /\ slices' = IF r.how = "timeout" THEN Put(slices, t, Get(slices, t) + 1) ELSE slices
+               /\ UNCHANGED <<scen, nloops, want, waitsOn, readyFd, lastParker, parkLoop>>
        [] ev = "recv_e" ->
             LET t == r.task IN
                /\ waitsOn' = Put(waitsOn, t, 0) /\ readyFd' = IF r.ret > 0 THEN readyFd \ {r.fd} ELSE readyFd
-               /\ UNCHANGED <<scen, nloops, want, sawCb, sawTo, nviol>>
+               /\ UNCHANGED <<scen, nloops, want, sawCb, sawTo, nviol, slices, lastParker, parkLoop>>
        [] ev = "tdone" ->
             \* a single timeout wake-up may win the race against the readiness event; a task that was
             \* woken with data pending three times or more and never once by the event was not
@@ -75,9 +93,9 @@ Step ==
                 bad == Get(sawTo, t) >= 3 /\ Get(sawCb, t) = 0
             IN /\ (bad => Viol("woken_by_timeout", <<t, Get(sawTo, t)>>))
                /\ nviol' = nviol + Count(bad)
-               /\ UNCHANGED <<scen, nloops, want, waitsOn, readyFd, sawCb, sawTo>>
+               /\ UNCHANGED <<scen, nloops, want, waitsOn, readyFd, sawCb, sawTo, slices, lastParker, parkLoop>>
        [] ev = "died" -> /\ Viol(r.how, r.msg) /\ nviol' = nviol + 1
-                         /\ UNCHANGED <<scen, nloops, want, waitsOn, readyFd, sawCb, sawTo>>
+                         /\ UNCHANGED <<scen, nloops, want, waitsOn, readyFd, sawCb, sawTo, slices, lastParker, parkLoop>>
 Spec == Init /\ [][Step]_vars
 Accepted == /\ PrintT(<<"ACCEPT", TLCGet("stats").diameter - 1, N>>)
             /\ TLCGet("stats").diameter - 1 = N
